@@ -587,6 +587,14 @@ Error:
             continue;
         }
         struct video_s* video = self->video + i;
+        // A source thread that did start winds its stream down itself when
+        // acquire_abort (below) asks it to: it stops its camera and tells the
+        // filter and the sink to finish once its last frame is out. Stopping
+        // the camera from this thread as well could stop it twice for one
+        // start, and stopping the sink early leaves the source's last frames
+        // in the ring for the next acquisition.
+        if (video->source.is_running)
+            continue;
         camera_stop(video->source.camera);
         // Wind down the workers this call already started (the sink and the
         // filter start before the source): nothing else would ever tell them
